@@ -129,6 +129,17 @@ theorem flatMap_find_congr {α β} (p : β → Bool) (f g : α → List β) (ls 
     simp only [List.flatMap_cons, List.find?_append]
     rw [h l (by simp), ih (fun l' hl' => h l' (by simp [hl']))]
 
+/-- The file systems the check uses (the runner's in-memory Fs as modelled by `fsOf`; a real disk
+    likewise) are coherent, so the hypothesis of the theorems below is satisfiable and is
+    satisfied on every generated case. -/
+theorem fsOf_coherent (files dirs : List Path) : (fsOf files dirs).coherent := by
+  intro d n h
+  simp only [fsOf] at h ⊢
+  have hm : (d ++ [n]) ∈ files := by simpa using h
+  simp only [Bool.or_eq_true, List.any_eq_true]
+  refine Or.inl (Or.inr ⟨d ++ [n], hm, ?_⟩)
+  simp [isProperPrefix, List.isPrefixOf_iff_prefix]
+
 /-! ### shape of the candidate lists (readable form) -/
 
 /-- `[n.sass, _n.sass, n.scss, _n.scss]` in `dir`. -/
@@ -581,6 +592,10 @@ example : (load .spec (fsOf [[['_', 'a', '.', 's', 'a', 's', 's']]] []) [['m']] 
     [.probe (.isFile [['a', '.', 's', 'a', 's', 's']]), .probe (.isFile [['_', 'a', '.', 's', 'a', 's', 's']]),
      .read [['_', 'a', '.', 's', 'a', 's', 's']]] := by decide
 
+example : ∀ c ∈ trace .spec (fsOf [[['a'], ['_', 'i', 'n', 'd', 'e', 'x', '.', 's', 'c', 's', 's']]] []) [['m']] [['a']] [] false,
+    c ∈ candidates .spec [['m']] [['a']] [] false :=
+  C13_confinement _ _ _ _ _ _
+
 /-! Result and calls depend only on what the supplied Fs answers on candidate paths. -/
 
 theorem firstFile_congr (fs fs' : Fs) (ps : List Path) (h : ∀ p ∈ ps, fs.isFile p = fs'.isFile p) :
@@ -626,6 +641,10 @@ theorem C13_depends_only_on_candidates (af : AsFound) (fs fs' : Fs) (importer ur
     load af fs importer url lps fi = load af fs' importer url lps fi := by
   unfold load
   rw [resolveLocs_congr fs fs' _ h]
+
+/-- e.g. a file `a.txt` (not a candidate of `@use "a"`) appearing on disk changes nothing. -/
+example : load .spec (fsOf [[['a', '.', 's', 'c', 's', 's']], [['a', '.', 't', 'x', 't']]] []) [['m']] [['a']] [] false =
+    load .spec (fsOf [[['a', '.', 's', 'c', 's', 's']]] []) [['m']] [['a']] [] false := by decide
 
 /-! ### the documented group-by-group search agrees when it is unambiguous -/
 
@@ -785,6 +804,10 @@ theorem C13_syntax_of_candidate (dir : Path) (n : Comp) (hn : n ≠ []) :
     simp only [syntaxFor, splitLast_append, syntaxForName, stemExt] <;>
     rw [splitLastDot_append n _ (by decide)] <;> simp only [e, Bool.false_eq_true, if_false] <;> rfl
 
+example : syntaxFor [['d'], ['f', 'o', 'o', '.', 'b', 'a', 'r', '.', 's', 'a', 's', 's']] = .sass ∧
+    syntaxFor [['_', 'n', '.', 'C', 'S', 'S']] = .css ∧ syntaxFor [['n', '.', 't', 'x', 't']] = .scss ∧
+    syntaxFor [['.', 's', 'a', 's', 's']] = .scss := by decide
+
 /-! ### plain-CSS imports -/
 
 /-- **plain_css_classification**: `is_plain_css_import` is the documented URL predicate
@@ -798,6 +821,9 @@ theorem C13_plain_css_classification (url : List Char) :
     simp [h, this]
   · have : 5 ≤ url.length := by omega
     simp [h, this]
+
+example : isPlainCssImport ['h', 't', 't', 'p', ':', '/', '/', 'x'] = true ∧ isPlainCssImport ['/', '/', 'a', 'b', 'c'] = true ∧
+    isPlainCssImport ['a', '.', 's', 'c', 's', 's'] = false ∧ isPlainCssImport ['.', 'c', 's', 's'] = false := by decide
 
 /-- The only URLs on which the documented predicate and the code disagree (length < 5) are
     `.css` itself and `//`-prefixed ones such as `//a` — the reference implementation makes the
